@@ -3,7 +3,7 @@ Class for managing custom score objects (e.g., "+20%").
 """
 import re
 
-SCORE_PATTERN = re.compile(r"(!*)([+\-/*])?([\d.]+)(%)?(.*)")
+SCORE_PATTERN = re.compile(r"(!*)([+\-/*])?([\d.]+(?:[eE][+\-]?\d+)?)(%)?(.*)")
 
 class Score:
     def __init__(self, invert, operator, value, percentage, leftovers):
